@@ -374,6 +374,39 @@ class OutgoingMessageHandler:
     """Represent a handler for outgoing messages."""
 
     @classmethod
+    async def handle_presentation(
+        cls,
+        gateway: Gateway,
+        message: Message,  # noqa: ARG003
+        message_buffer: MessageBuffer | None,  # noqa: ARG003
+        decoded_message: str,
+    ) -> None:
+        """Process outgoing presentation messages."""
+        await gateway.transport.write(decoded_message)
+
+    @classmethod
+    async def handle_req(
+        cls,
+        gateway: Gateway,
+        message: Message,  # noqa: ARG003
+        message_buffer: MessageBuffer | None,  # noqa: ARG003
+        decoded_message: str,
+    ) -> None:
+        """Process outgoing req messages."""
+        await gateway.transport.write(decoded_message)
+
+    @classmethod
+    async def handle_stream(
+        cls,
+        gateway: Gateway,
+        message: Message,  # noqa: ARG003
+        message_buffer: MessageBuffer | None,  # noqa: ARG003
+        decoded_message: str,
+    ) -> None:
+        """Process outgoing stream messages."""
+        await gateway.transport.write(decoded_message)
+
+    @classmethod
     async def handle_set(
         cls,
         gateway: Gateway,
